@@ -568,6 +568,10 @@ class Engine:
                         v = self.hooks.materialize(E, p)
                         if v is not TOP:
                             E.set(p, v)
+                    # a byte cell read as char is signed, read as unsigned char it is 0..255, whichever way it was stored
+                    ty = n.get('t', '')
+                    if v is not TOP and ty in ('char', 'signed char', 'unsigned char') and any(isinstance(e_, int) and not (-128 <= e_ <= 127 if ty != 'unsigned char' else 0 <= e_ <= 255) for e_ in v):
+                        v = frozenset((((e_ + 128) & 255) - 128 if ty != 'unsigned char' else e_ & 255) if isinstance(e_, int) else e_ for e_ in v)
                     T[x.id] = v
                 else:
                     T[x.id] = TOP
